@@ -278,11 +278,13 @@ def construct (t : Tmp) : Date × Bool :=
 inductive PRes | ok (d : Date) | now | err (e : FErr)
   deriving DecidableEq, Repr
 
-/-- `ParseDate` -/
-def parseDate (fmt inp : List Char) : PRes :=
-  match parseToks (scan fmt) inp {} with
+/-- the end of `ParseDate`: build the date from the collected fields -/
+def finishParse : Except FErr Tmp → PRes
   | .error e => .err e
   | .ok t => let (d, n) := construct t; if n then .now else .ok d
+
+/-- `ParseDate` -/
+def parseDate (fmt inp : List Char) : PRes := finishParse (parseToks (scan fmt) inp {})
 
 /-! ### `DateTime` default format `%Y-%m-%d %H:%M:%S.%9N %:z` (UTC) -/
 
